@@ -1,4 +1,5 @@
 use super::RefCellReplacement;
+use itertools::Itertools;
 use std::{
     cell::{Ref, RefCell},
     collections::HashSet,
@@ -45,6 +46,7 @@ impl Function {
                 .labels()
                 .into_iter()
                 .map(|x| x.to_string())
+                .sorted()
                 .collect::<Vec<String>>()
                 .join(", "),
         )
